@@ -12,3 +12,6 @@ Theorem C05_eq s a b : beval s (count_eq a b) = (count_true s a =? count_true s 
 Theorem C05_lang s op bs n : beval s (eval_countc op bs n) = cop_sem op (count_true s bs) (Z.of_N n).
 Proof. exact (eval_countc_sem s op bs n). Qed.
 Print Assumptions C05_aln. Print Assumptions C05_lang.
+
+Example C05_instance : aln (bvar 0 :: bvar 1 :: nil) 2 = Nd (Nd T 1 F) 0 F /\ count_lt (bvar 0 :: nil) (bvar 0 :: bvar 1 :: nil) = Nd T 1 F.
+Proof. split; vm_compute; reflexivity. Qed.
